@@ -16,9 +16,21 @@
   ids are pairwise distinct per index (`Distinct`).  The defect is design-level (known finding).
 -/
 import MM.Lemmas.C16
+import MM.Gen.LockC16
 
 namespace MM.C16
 open Table
+
+
+/-! ### atomic-step tie (tools/lockshape.go over internal/agent/relay_table.go): every `relayTable`
+    method is ONE locked region and touches the indices only under the lock — the model treats each
+    method as one atomic function. -/
+theorem C16_lock_table_methods_atomic :
+    Gen.LockC16.acquisitions = [("relayTable.Delete", 1), ("relayTable.DeleteByPeer", 1), ("relayTable.Insert", 1),
+      ("relayTable.LookupBoth", 1), ("relayTable.LookupDownstream", 1), ("relayTable.PopDownstreamFromPeer", 1),
+      ("relayTable.PopMatchingPeer", 1)] ∧
+    (Gen.LockC16.accesses.all (fun a => if a.2.2.1 then a.2.2.2 == "W" else (a.2.2.2 == "W" || a.2.2.2 == "R"))) = true := by
+  decide
 
 /-- Every binding is stored under its own key and is present in BOTH indices (the invariant
     relay_table.go documents), and each index has one binding per key. -/
